@@ -77,3 +77,15 @@ Definition clump_ok (fx : bool) (size : Z) (a : arg) (e : Z * list Z) : bool :=
 Require Import SC3.model.Osc10.
 Definition osc10_accepts (d : bytes) : bool :=
   match Osc10.decode d with Some _ => true | None => false end.
+
+(* use sites: SynthDef._do_send chose '/d_recv' iff the prediction for the message that is to
+   be sent is within the limit; send_clumped_bundles / sync sent the planned clumps *)
+Definition choice_ok (a : arg) (chose : bool) : bool :=
+  match calc_top true a with Ok n => Bool.eqb (use_d_recv n) chose | Err _ => false end.
+Definition plan_ok (sync : bool) (a : arg) (e : Z * list Z) : bool :=
+  match a with
+  | AList (_ :: els) =>
+      let c := clump_canon ((if sync then sync_plan else send_clumped_plan) true els) in
+      (fst c =? fst e) && zlist_eqb (snd c) (snd e)
+  | _ => false
+  end.
